@@ -6,6 +6,7 @@ package main
 // "global:<pkg.name>", "*param<i>" (store through pointer parameter i), "deref:<type>".
 
 import (
+	"go/token"
 	"go/types"
 	"sort"
 
@@ -38,8 +39,60 @@ func rootValue(v ssa.Value) ssa.Value {
 }
 
 func isFreshLocal(v ssa.Value) bool {
-	a, ok := rootValue(v).(*ssa.Alloc)
-	return ok && a != nil
+	switch r := rootValue(v).(type) {
+	case *ssa.Alloc:
+		return r != nil
+	case *ssa.UnOp:
+		// the object a local pointer variable refers to, when every value ever stored into the
+		// variable is an object allocated by the same function (`b := &T{}` with b captured by a
+		// function literal becomes a variable cell); also through the free variable of a
+		// function literal that never leaves the function that creates it
+		if r.Op != token.MUL {
+			return false
+		}
+		var cell *ssa.Alloc
+		switch x := r.X.(type) {
+		case *ssa.Alloc:
+			cell = x
+		case *ssa.FreeVar:
+			fn := x.Parent()
+			if fn == nil || fn.Parent() == nil || closureEscapes(fn) {
+				return false
+			}
+			idx := -1
+			for i, fv := range fn.FreeVars {
+				if fv == x {
+					idx = i
+				}
+			}
+			instrs(fn.Parent(), func(in ssa.Instruction) {
+				if mc, ok := in.(*ssa.MakeClosure); ok && mc.Fn == ssa.Value(fn) && idx >= 0 && idx < len(mc.Bindings) {
+					if a, ok := mc.Bindings[idx].(*ssa.Alloc); ok {
+						cell = a
+					}
+				}
+			})
+		}
+		if cell == nil || cell.Referrers() == nil {
+			return false
+		}
+		n := 0
+		for _, ref := range *cell.Referrers() {
+			st, ok := ref.(*ssa.Store)
+			if !ok || st.Addr != ssa.Value(cell) {
+				continue
+			}
+			n++
+			if _, fresh := rootValue(st.Val).(*ssa.Alloc); !fresh {
+				return false
+			}
+			if a, _ := rootValue(st.Val).(*ssa.Alloc); a == cell {
+				return false
+			}
+		}
+		return n > 0
+	}
+	return false
 }
 
 // storeClass classifies the target of a store.
@@ -191,6 +244,11 @@ func (e *Effects) targets(ci ssa.CallInstruction) []*ssa.Function {
 	}
 	for _, fn := range e.w.Funcs {
 		if fn.Signature.Recv() == nil && types.Identical(stripRecv(fn.Signature), sig) {
+			// a function literal that never leaves the function that creates it (only called
+			// there, never passed on, stored or returned) cannot be what is called elsewhere
+			if fn.Parent() != nil && fn.Parent() != ci.Parent() && !closureEscapes(fn) {
+				continue
+			}
 			out = append(out, fn)
 		}
 	}
@@ -213,3 +271,106 @@ func (e *Effects) Writes(fn *ssa.Function) []string {
 
 // WritesClass reports whether fn may (transitively) write class k.
 func (e *Effects) WritesClass(fn *ssa.Function, k string) bool { return e.trans[fn][k] }
+
+var closureEscapeCache = map[*ssa.Function]int{}
+
+// closureEscapes: the function literal fn is used, in its parent, for anything other than
+// being called (directly, or through a local variable that is only loaded and called).
+func closureEscapes(fn *ssa.Function) bool {
+	switch closureEscapeCache[fn] {
+	case 1:
+		return true
+	case 2:
+		return false
+	}
+	esc := false
+	parent := fn.Parent()
+	var valueEscapes func(v ssa.Value, depth int) bool
+	valueEscapes = func(v ssa.Value, depth int) bool {
+		refs := v.Referrers()
+		if refs == nil || depth > 4 {
+			return true
+		}
+		for _, r := range *refs {
+			switch x := r.(type) {
+			case ssa.CallInstruction:
+				if x.Common().Value == v {
+					// called
+					for _, a := range x.Common().Args {
+						if a == v {
+							return true
+						}
+					}
+					continue
+				}
+				return true // passed as an argument
+			case *ssa.Store:
+				if x.Val != v {
+					continue
+				}
+				a, ok := x.Addr.(*ssa.Alloc)
+				if !ok {
+					return true
+				}
+				// local variable: every load must itself only be called
+				for _, ar := range *a.Referrers() {
+					switch y := ar.(type) {
+					case *ssa.Store:
+						if y.Addr != ssa.Value(a) {
+							return true
+						}
+					case *ssa.UnOp:
+						if valueEscapes(y, depth+1) {
+							return true
+						}
+					case *ssa.DebugRef:
+					default:
+						return true
+					}
+				}
+			case *ssa.DebugRef:
+			case *ssa.Phi:
+				if valueEscapes(x, depth+1) {
+					return true
+				}
+			default:
+				return true
+			}
+		}
+		return false
+	}
+	found := false
+	if parent != nil {
+		instrs(parent, func(in ssa.Instruction) {
+			mc, ok := in.(*ssa.MakeClosure)
+			if ok && mc.Fn == ssa.Value(fn) {
+				found = true
+				if valueEscapes(mc, 0) {
+					esc = true
+				}
+			}
+			// a literal without free variables is referenced as a plain function value
+			for _, op := range in.Operands(nil) {
+				if *op == ssa.Value(fn) {
+					if _, isMC := in.(*ssa.MakeClosure); isMC {
+						continue
+					}
+					found = true
+					if ci, ok := in.(ssa.CallInstruction); ok && ci.Common().Value == ssa.Value(fn) {
+						continue
+					}
+					esc = true
+				}
+			}
+		})
+	}
+	if !found {
+		esc = true
+	}
+	if esc {
+		closureEscapeCache[fn] = 1
+	} else {
+		closureEscapeCache[fn] = 2
+	}
+	return esc
+}
